@@ -298,6 +298,74 @@ def native_show(seed, tier):
     return n, bad
 
 
+def native_matplotlib_slices(seed):
+    """the matplotlib back end cannot draw colour gradients: the magnet mesh is cut into slabs of constant colour. The union of the slabs must still
+    be the whole magnet (drawn vertices span the full extent, cuboid vertices on the surface), whatever the pole colours are — also when two of them coincide"""
+    import warnings
+
+    try:
+        import matplotlib
+
+        matplotlib.use("Agg")
+        import matplotlib.pyplot as plt
+    except ImportError:
+        return 0, []
+    import magpylib as magpy
+    from scipy.spatial.transform import Rotation as R
+
+    warnings.simplefilter("ignore")
+    rng = np.random.default_rng(seed)
+    mk = {
+        "Cuboid": lambda: magpy.magnet.Cuboid(dimension=(1, 2, 3), polarization=(0.3, 0.2, 1)),
+        "Cylinder": lambda: magpy.magnet.Cylinder(dimension=(1, 2), polarization=(0, 0, 1)),
+        "Sphere": lambda: magpy.magnet.Sphere(diameter=1.6, polarization=(0, 1, 1)),
+    }
+    red, grey, green = "#E71111", "#DDDDDD", "#00B050"
+    colourings = [("tricolor", red, grey, green, None), ("tricolor", red, red, green, None), ("tricolor", red, green, green, None), ("tricolor", red, grey, red, None),
+                  ("bicolor", red, grey, green, None), ("bicolor", red, grey, red, None), ("tricycle", red, grey, green, red), ("tricycle", red, grey, green, "blue")]
+    bad, n = [], 0
+    for cname, (mode, north, middle, south, own) in itertools.product(mk, colourings):
+        o = mk[cname]()
+        o._position = rng.normal(size=(1, 3))
+        o._orientation = R.from_rotvec(rng.normal(size=(1, 3)))
+        o.style.magnetization.mode = "color"
+        o.style.magnetization.color.mode = mode
+        o.style.magnetization.color.north, o.style.magnetization.color.middle, o.style.magnetization.color.south = north, middle, south
+        if own:
+            o.style.color = own
+        case = dict(cls=cname, backend="matplotlib", colour_mode=mode, north=north, middle=middle, south=south, own=own)
+        n += 1
+        try:
+            fig = magpy.show(o, backend="matplotlib", return_fig=True)
+            V = []
+            for ax in fig.axes:
+                for coll in ax.collections:
+                    f = getattr(coll, "_faces", None)
+                    if f is not None and np.size(f):
+                        V.append(np.asarray(f, dtype=float).reshape(-1, 3))
+            plt.close(fig)
+        except Exception as e:  # pylint: disable=broad-except
+            bad.append((case, f"show raised {type(e).__name__}: {str(e)[:80]}"))
+            continue
+        if not V:
+            bad.append((case, "no surface drawn"))
+            continue
+        L = o._orientation[0].inv().apply(np.concatenate(V) - o._position[0])
+        got, ext = L.max(axis=0) - L.min(axis=0), extent(cname, o)
+        if np.any(got < ext * (0.97 if cname != "Cuboid" else 0.999) - 1e-9):
+            bad.append((case, f"the drawn magnet spans {np.round(got, 3).tolist()} in its own frame, its extent is {np.round(ext, 3).tolist()}: a part of the body is not drawn"))
+        if cname == "Cuboid" and not all(on_surface(cname, o, v, 1e-6) for v in L):
+            bad.append((case, "drawn vertices off the surface"))
+    return n, bad
+
+
+REPLAY_MPL = """import sys
+from checks.c19 import native_matplotlib_slices
+n, bad = native_matplotlib_slices({seed})
+for c, m in bad[:6]: print(c, m)
+sys.exit(1 if bad else 0)
+"""
+
 REPLAY = """import sys
 from checks.c19 import native_show
 n, bad = native_show({seed}, 'quick')
@@ -310,7 +378,7 @@ def main(tier, seed):
     rep = Report(PID, tier, seed, "other")
     rep.explanation = ("PROVED pieces: place_and_orient_model3d term-exactly (all vertex values, rotations, positions; rational scale/unit) and the restore-on-every-exit "
                        "of style_temp_edit. BOUNDED: drawn plotly/generic models of 9 classes x units x path lengths x collection nesting against the analytic shapes.")
-    rep.assume("matplotlib / pyvista back ends are not examined; only the generic traces through the plotly back end")
+    rep.assume("pyvista back end not examined; matplotlib only for the colour-slab geometry of magnets; everything else through the generic traces of the plotly back end")
     rep.assume("trace generation (make_Cuboid ... make_Sensor, get_frames) is reflection- and dictionary-heavy presentation code: bounded stand-in only")
     fails = place_orient_obligations(rep) + style_temp_obligations(rep)
     n, bad = native_show(seed, tier)
@@ -325,4 +393,10 @@ def main(tier, seed):
     if not fails:
         for c, m_ in bad[:3]:
             rep.violation(f"standin.drawn-model[{c['cls']}]", {"case": c, "native_result": m_, "script": REPLAY.format(seed=seed)})
+    n3, bad3 = native_matplotlib_slices(seed)
+    rep.standin("matplotlib back end: the colour slabs of a magnet together span its full extent (cuboid vertices on the surface) for every colour mode, also with coinciding pole colours",
+                "3 magnet classes x 8 colourings (tricolor / bicolor / tricycle, distinct and coinciding colours)", n3, n3, "random pose", [dict(cls="Cuboid", colour_mode="tricolor", middle="== north")],
+                failures=len(bad3), exhaustive=True)
+    for c, m_ in bad3[:3]:
+        rep.violation(f"standin.colour-slabs[{c['cls']},{c['colour_mode']}]", {"case": c, "native_result": m_, "script": REPLAY_MPL.format(seed=seed)})
     return rep.finish()
